@@ -28,7 +28,7 @@ func (o *Oblig) Query(withModel bool, extra string) string {
 	for _, d := range x.decls {
 		b.WriteString(d + "\n")
 	}
-	for _, s := range relevantSteps(x.steps[:o.NSteps], o.PC+" "+o.Goal+" "+extra) {
+	for _, s := range relevantSteps(x.steps[:o.NSteps], o.PC+" "+o.Goal+" "+extra, o.ForceFilter) {
 		b.WriteString("(assert " + s + ")\n")
 	}
 	fmt.Fprintf(&b, "; obligation %s: %s\n", o.Name, o.Desc)
@@ -160,6 +160,20 @@ func discharge(o *Oblig, dir string, quickSecs, fullSecs int) {
 		outs = append(outs, rr.name+": "+rr.res+" "+firstLines(rr.text, 3))
 	}
 	o.Secs += maxEl
+	// stage 3 (proof obligations only): the same goal with only the assumptions
+	// in its cone of influence (dropping assumptions is sound for a proof; the
+	// quantified frames of unrelated memory versions are what solvers drown in)
+	if !o.ForceFilter && o.Expect == "unsat" && o.fx != nil && len(o.fx.steps[:o.NSteps]) < 400 {
+		o.ForceFilter = true
+		os.WriteFile(file, []byte(o.Query(false, "")), 0o644)
+		for _, sp := range solvers[:2] {
+			res, text, el := runSolver(context.Background(), sp, file, 20)
+			if res == "unsat" {
+				decide(res, sp.name+" (filtered assumptions)", text, el)
+				return
+			}
+		}
+	}
 	o.Status = "unknown"
 	nerr := 0
 	for _, s := range outs {
@@ -204,8 +218,8 @@ var symRe = regexp.MustCompile(`\|[^|]+\|`)
 // condition, or (transitively) another kept assumption.  Dropping assumptions
 // is always sound; it removes e.g. the range and frame axioms of memory
 // versions the obligation never mentions.
-func relevantSteps(steps []string, seed string) []string {
-	if len(steps) < 400 || os.Getenv("VCGEN_NOFILTER") != "" {
+func relevantSteps(steps []string, seed string, force bool) []string {
+	if (len(steps) < 400 && !force) || os.Getenv("VCGEN_NOFILTER") != "" {
 		return steps
 	}
 	syms := make([][]string, len(steps))
